@@ -11,6 +11,7 @@ CONSTANTS
  DevNoCap = FALSE
  DevHealthNotChecked <- None
  DevDegradedPasses = FALSE
+ DevGateHoisted = FALSE
 INIT Init
 NEXT Next
 INVARIANTS C25_GridTheorem C25_FunctionOfWindow C25_Monotone C25_Gate StoredIsWindow Bounded
